@@ -138,6 +138,13 @@ func concretise(cs *Case, r *rand.Rand, now int64) (*built, error) {
 	switch t {
 	case "signer":
 		s.signKey, _ = keyFromSeed(randSeed(r))
+	case "si_attacker":
+		att, err := newAcct(cs.Ver, randSeed(r), wc, sub, r)
+		if err != nil {
+			return nil, err
+		}
+		s.signKey, s.si = att.priv, att.si // the address stays the victim's
+		keys["other"] = hex.EncodeToString(att.pub)
 	case "chain_differs_signer_owner", "chain_differs_signer_chain":
 		k2priv, k2pub := keyFromSeed(randSeed(r))
 		if cs.Src == "chain" {
